@@ -3,6 +3,8 @@ import ObiVerif.Model.Race
 import ObiVerif.Lemmas.Race
 import ObiVerif.Lemmas.Clean
 import ObiVerif.Lemmas.CleanFuel
+import ObiVerif.Lemmas.CleanDist
+import ObiVerif.Lemmas.CleanAnnot
 import ObiVerif.Props.C09
 /-!
 # Property C13 — the obiclean graph is exact and identical for any worker count
@@ -14,7 +16,7 @@ of `Model/Lcs.lean` with its specification `d1or0_spec` (property C09).
 -/
 namespace ObiVerif.Props.C13
 open ObiVerif.Clean ObiVerif.Race
-open ObiVerif.Lcs (Seq d1F lev OneEdit)
+open ObiVerif.Lcs (Seq d1F lev OneEdit lcsDP samenuc bandLCS)
 
 /-! ## The race, as theorems on the interleaving model -/
 
@@ -371,5 +373,386 @@ example : rowEdges1 realKernels (sortByCount exSample).toArray 0 = [⟨2, 1, 3, 
 /-- non-vacuity of `atomic_any_schedule`: three threads, five increments of two counters, an interleaving -/
 example : ((Machine.init ([[0, 1], [0], [1, 0]].map (fun th => th.flatMap (incSteps true)))).run [2, 0, 1, 2, 0]).done = true ∧
     ((Machine.init ([[0, 1], [0], [1, 0]].map (fun th => th.flatMap (incSteps true)))).run [2, 0, 1, 2, 0]).mem 0 = 3 := by decide
+
+/-! ## Deepening round 2: `--distance > 1`, the ratio test, the data set and its annotations, `--head` -/
+
+/-- the number of differences of the optimal LCS alignment of two sequences -/
+def lcsDist (a b : Seq) : Int := ((lcsDP samenuc a b).2 : Int) - ((lcsDP samenuc a b).1 : Int)
+
+/-- `D1Or0 < 0` (the condition under which `extendSimilarityGraph` calls the LCS kernel) is "edit distance at least 2" -/
+theorem d1F_neg_iff (a b : Seq) : (d1F a b).verdict < 0 ↔ 2 ≤ lev a b := by
+  obtain ⟨_, h0, h1, _, _, hn⟩ := ObiVerif.Props.C09.d1or0_spec a b
+  constructor
+  · intro h
+    have : lev a b ≠ 0 := fun e => by have := h0.2 e; omega
+    have : lev a b ≠ 1 := fun e => by have := h1.2 e; omega
+    omega
+  · intro h
+    rw [hn (by omega) (by omega)]
+    decide
+
+/-- **`edge2_iff`** — exactness of the `--distance d` (`d > 1`) phase, `extendSimilarityGraph`: a row `i` that got no
+distance-one father is linked to row `j` exactly when `j` comes later in the (stable) count order — the code does
+NOT compare the counts here, so `count j ≥ count i` and, among ties, input order decides —, the two sequences are at
+edit distance at least 2 and their optimal LCS alignment (`lcsDP`: longest common subsequence with IUPAC matching,
+shortest alignment achieving it; `lcsDP_is_lcs` of C09) has at most `d` differences. The edge is then unique and
+carries exactly that number of differences, position `-1` and `'-'`, `'-'`. Uses `fastLCS_decides_bound` (C09) as a
+theorem; `|a| + |b| < 30000` is the domain of the kernel's sentinel. -/
+theorem edge2_iff (ns : Array Node) (d : Nat) (hd : d > 1) (i j : Nat) (hi : i < ns.size) (hj : j < ns.size)
+    (hlen : ns[i].seq.length + ns[j].seq.length + 1 ≤ 30000) :
+    ((∃ e ∈ rowEdges2 realKernels d ns [] i, e.father = j) ↔
+      (i < j ∧ 2 ≤ lev ns[i].seq ns[j].seq ∧ lcsDist ns[i].seq ns[j].seq ≤ d)) ∧
+    (∀ e ∈ rowEdges2 realKernels d ns [] i, e.father = j → e = ⟨j, lcsDist ns[i].seq ns[j].seq, -1, 45, 45⟩) := by
+  have hne : (d : Int) ≠ -1 := by omega
+  obtain ⟨hdec, hopt⟩ := ObiVerif.Props.C09.fastLCS_decides_bound ns[i].seq ns[j].seq d hlen hne
+  have key : ∀ e, edgeTo2 realKernels d ns i j = some e →
+      2 ≤ lev ns[i].seq ns[j].seq ∧ lcsDist ns[i].seq ns[j].seq ≤ d ∧ e = ⟨j, lcsDist ns[i].seq ns[j].seq, -1, 45, 45⟩ := by
+    intro e he
+    rw [edgeTo2_eq _ _ _ _ _ hi hj] at he
+    split at he
+    · rename_i hv
+      split at he
+      · rename_i s l hk
+        split at he
+        · rename_i hb
+          have hk' : bandLCS ns[i].seq ns[j].seq d = some (s, l) := hk
+          have ho := hopt s l hk' hb.1
+          have hdist : lcsDist ns[i].seq ns[j].seq = (l : Int) - (s : Int) := by
+            unfold lcsDist; rw [← ho]
+          refine ⟨(d1F_neg_iff _ _).1 hv, by rw [hdist]; exact hb.1, ?_⟩
+          cases he
+          rw [hdist]
+        · cases he
+      · cases he
+    · cases he
+  refine ⟨⟨?_, ?_⟩, ?_⟩
+  · rintro ⟨e, he, hf⟩
+    obtain ⟨j', hij, hj', hej⟩ := (mem_rowEdges2 _ _ _ _ _).1 he
+    have : j' = j := by rw [← edgeTo2_father _ _ _ _ _ _ hej, hf]
+    subst this
+    obtain ⟨a, b, _⟩ := key e hej
+    exact ⟨hij, a, b⟩
+  · rintro ⟨hij, hl, hb⟩
+    obtain ⟨s, l, hk, hsl⟩ := hdec.2 hb
+    refine ⟨⟨j, (l : Int) - (s : Int), -1, 45, 45⟩, (mem_rowEdges2 _ _ _ _ _).2 ⟨j, hij, hj, ?_⟩, rfl⟩
+    have hv : (realKernels.d1 ns[i].seq ns[j].seq).verdict < 0 := (d1F_neg_iff _ _).2 hl
+    rw [edgeTo2_eq _ _ _ _ _ hi hj, if_pos hv]
+    have hk' : realKernels.lcs ns[i].seq ns[j].seq d = some (s, l) := hk
+    rw [hk']
+    simp only
+    rw [if_pos ⟨hsl, by omega⟩]
+  · intro e he hf
+    obtain ⟨j', _, _, hej⟩ := (mem_rowEdges2 _ _ _ _ _).1 he
+    have : j' = j := by rw [← edgeTo2_father _ _ _ _ _ _ hej, hf]
+    subst this
+    exact (key e hej).2.2
+
+theorem rat_div_pow_mul (p q : Rat) (hq : q ≠ 0) (n : Nat) : (p / q) ^ n * q ^ n = p ^ n := by
+  induction n with
+  | zero => simp
+  | succ k ih =>
+    rw [Rat.pow_succ, Rat.pow_succ, Rat.pow_succ, ← ih]
+    have : p / q * q = p := Rat.div_mul_cancel hq
+    grind
+
+/-- **`ratio_test_rational`** — the integer test of the model IS the comparison of rationals of `FilterGraphOnRatio`,
+`w1 / wf ≤ (p / q) ^ dist`, for every positive father weight and denominator (no rounding: `Rat` is exact) -/
+theorem ratio_test_rational (p q w1 wf : Nat) (dist : Int) (hq : 0 < q) (hwf : 0 < wf) :
+    ratioKeeps p q w1 wf dist = true ↔ (w1 : Rat) / (wf : Rat) ≤ ((p : Rat) / (q : Rat)) ^ dist.toNat := by
+  unfold ratioKeeps
+  generalize dist.toNat = n
+  rw [decide_eq_true_iff]
+  have hqr : (0 : Rat) < (q : Rat) := Rat.natCast_pos.2 hq
+  have hwr : (0 : Rat) < (wf : Rat) := Rat.natCast_pos.2 hwf
+  have hqn : (0 : Rat) < (q : Rat) ^ n := Rat.pow_pos hqr
+  have hm : (0 : Rat) < (wf : Rat) * (q : Rat) ^ n := Rat.mul_pos hwr hqn
+  have hl : (w1 : Rat) / (wf : Rat) * ((wf : Rat) * (q : Rat) ^ n) = ((w1 * q ^ n : Nat) : Rat) := by
+    have : (w1 : Rat) / (wf : Rat) * (wf : Rat) = (w1 : Rat) := Rat.div_mul_cancel (Rat.ne_of_gt hwr)
+    rw [Rat.natCast_mul, Rat.natCast_pow, ← this]
+    grind
+  have hr : ((p : Rat) / (q : Rat)) ^ n * ((wf : Rat) * (q : Rat) ^ n) = ((p ^ n * wf : Nat) : Rat) := by
+    rw [Rat.natCast_mul, Rat.natCast_pow, ← rat_div_pow_mul (p : Rat) (q : Rat) (Rat.ne_of_gt hqr) n]
+    grind
+  rw [← Rat.natCast_le_natCast, ← hl, ← hr]
+  constructor
+  · intro h; exact Rat.le_of_mul_le_mul_right h hm
+  · intro h; exact Rat.mul_le_mul_of_nonneg_right h (Rat.le_of_lt hm)
+
+theorem rowEdges1_father_lt (K : Kernels) (ns : Array Node) (i : Nat) (e : Edge) (he : e ∈ rowEdges1 K ns i) :
+    i < e.father ∧ e.father < ns.size := by
+  obtain ⟨j, hij, hj, hej⟩ := (mem_rowEdges1 _ _ _ _).1 he
+  rw [edgeTo1_father _ _ _ _ _ hej]; exact ⟨hij, hj⟩
+
+theorem rowEdges2_father_lt (K : Kernels) (step : Int) (ns : Array Node) (i : Nat) (e : Edge)
+    (he : e ∈ rowEdges2 K step ns [] i) : i < e.father ∧ e.father < ns.size := by
+  obtain ⟨j, hij, hj, hej⟩ := (mem_rowEdges2 _ _ _ _ _).1 he
+  rw [edgeTo2_father _ _ _ _ _ _ hej]; exact ⟨hij, hj⟩
+
+/-- **`output_edges_exact`** — every distance and every ratio: the edges `obiclean` ENDS with for the `i`-th sequence of
+the count-sorted sample are exactly the distance-one edges of the row (`edge_iff`), or — when `--distance > 1` and
+the row has none — the edges of `edge2_iff`, among which the ratio filter (`--ratio p/q < 1`) keeps exactly those
+with `weight(son) · q^dist ≤ p^dist · weight(father)`, i.e. `weight(son) / weight(father) ≤ (p/q)^dist`
+(`ratio_test_rational`), the weights being the `obiclean_weight` written for the two nodes. -/
+theorem output_edges_exact (K : Kernels) (cfg : Config) (sample : List Node) (outs : List Out)
+    (h : cleanSample K cfg sample = .ok outs) (i : Nat) (o : Out) (hi : outs[i]? = some o) :
+    ∃ hlt : i < (sortByCount sample).toArray.size, o.node = (sortByCount sample).toArray[i] ∧
+      ∀ e : Edge, e ∈ o.edges ↔
+        ((e ∈ rowEdges1 K (sortByCount sample).toArray i ∨
+          (cfg.maxError > 1 ∧ rowEdges1 K (sortByCount sample).toArray i = [] ∧
+            e ∈ rowEdges2 K cfg.maxError (sortByCount sample).toArray [] i)) ∧
+         (cfg.p < cfg.q → ∃ f : Out, outs[e.father]? = some f ∧
+            o.weight * cfg.q ^ e.dist.toNat ≤ cfg.p ^ e.dist.toNat * f.weight)) := by
+  obtain ⟨hlen, weight, hw, hall⟩ := finish_edges_weight cfg (sortByCount sample).toArray _ _ _ _
+    (by simp [edges1]) (by simp [edges2]) outs h
+  obtain ⟨hlt, hn, he⟩ := hall i o hi
+  have hi' : i < (sortByCount sample).length := by simpa using hlt
+  have e1 : (edges1 K (sortByCount sample).toArray).getD i [] = rowEdges1 K (sortByCount sample).toArray i := by
+    simp [edges1, List.getD, List.getElem?_range hi']
+  have e2 : (edges2 K cfg.maxError (sortByCount sample).toArray (edges1 K (sortByCount sample).toArray)).getD i [] =
+      if cfg.maxError > 1 then rowEdges2 K cfg.maxError (sortByCount sample).toArray
+        (rowEdges1 K (sortByCount sample).toArray i) i else [] := by
+    have e1' : (edges1 K (sortByCount sample).toArray)[i]?.getD [] = rowEdges1 K (sortByCount sample).toArray i := by
+      rw [← List.getD_eq_getElem?_getD]; exact e1
+    simp only [edges2, List.getD_eq_getElem?_getD, List.getElem?_map, List.getElem?_range hlt, Option.map_some,
+      Option.getD_some, e1']
+  rw [e1, e2] at he
+  refine ⟨hlt, by rw [hn]; simp [Array.getD, hi'], fun e => ?_⟩
+  -- membership in the unfiltered row
+  have hbase : e ∈ rowEdges1 K (sortByCount sample).toArray i ++
+        (if cfg.maxError > 1 then rowEdges2 K cfg.maxError (sortByCount sample).toArray
+          (rowEdges1 K (sortByCount sample).toArray i) i else []) ↔
+      (e ∈ rowEdges1 K (sortByCount sample).toArray i ∨
+          (cfg.maxError > 1 ∧ rowEdges1 K (sortByCount sample).toArray i = [] ∧
+            e ∈ rowEdges2 K cfg.maxError (sortByCount sample).toArray [] i)) := by
+    rw [List.mem_append]
+    constructor
+    · rintro (h1 | h2)
+      · exact .inl h1
+      · by_cases hm : cfg.maxError > 1
+        · rw [if_pos hm] at h2
+          by_cases hr : rowEdges1 K (sortByCount sample).toArray i = []
+          · rw [hr] at h2; exact .inr ⟨hm, hr, h2⟩
+          · rw [rowEdges2_of_ne _ _ _ _ _ hr] at h2; cases h2
+        · rw [if_neg hm] at h2; cases h2
+    · rintro (h1 | ⟨hm, hr, h2⟩)
+      · exact .inl h1
+      · refine .inr ?_
+        rw [if_pos hm, hr]; exact h2
+  have hfl : e ∈ rowEdges1 K (sortByCount sample).toArray i ++
+        (if cfg.maxError > 1 then rowEdges2 K cfg.maxError (sortByCount sample).toArray
+          (rowEdges1 K (sortByCount sample).toArray i) i else []) → e.father < outs.length := by
+    intro hm
+    rw [hlen]
+    rcases hbase.1 hm with h1 | ⟨_, _, h2⟩
+    · exact (rowEdges1_father_lt _ _ _ _ h1).2
+    · exact (rowEdges2_father_lt _ _ _ _ _ h2).2
+  rw [he]
+  split
+  · rename_i hpq
+    simp only [filterRow, List.mem_filter, ratioKeeps, decide_eq_true_eq]
+    rw [hbase]
+    constructor
+    · rintro ⟨hb, hr⟩
+      refine ⟨hb, fun _ => ?_⟩
+      have hf := hfl (hbase.2 hb)
+      refine ⟨outs[e.father], List.getElem?_eq_getElem hf, ?_⟩
+      rw [hw _ _ (List.getElem?_eq_getElem hf), hw i o hi]
+      exact hr
+    · rintro ⟨hb, hr⟩
+      obtain ⟨f, hf, hle⟩ := hr hpq
+      refine ⟨hb, ?_⟩
+      rw [← hw _ _ hf, ← hw i o hi]
+      exact hle
+  · rename_i hpq
+    rw [hbase]
+    exact ⟨fun hb => ⟨hb, fun hc => absurd hc hpq⟩, fun hb => hb.1⟩
+
+/-- non-vacuity of `edge2_iff` / `output_edges_exact` (test on one value): "acgta" ×4 and "aggwa" ×1 (two substitutions),
+`--distance 2 --ratio 1/2`: 1/4 = (1/2)² exactly, kept -/
+example : cleanSample realKernels { maxError := 2, p := 1, q := 2 }
+      [⟨0, 4, [97, 99, 103, 116, 97]⟩, ⟨1, 1, [97, 103, 103, 99, 97]⟩] =
+    .ok [⟨⟨1, 1, [97, 103, 103, 99, 97]⟩, 1, 0, [⟨1, 2, -1, 45, 45⟩]⟩, ⟨⟨0, 4, [97, 99, 103, 116, 97]⟩, 4, 1, []⟩] ∧
+    cleanSample realKernels { maxError := 2, p := 1, q := 2 }
+      [⟨0, 3, [97, 99, 103, 116, 97]⟩, ⟨1, 1, [97, 103, 103, 99, 97]⟩] =
+    .ok [⟨⟨1, 1, [97, 103, 103, 99, 97]⟩, 1, 0, []⟩, ⟨⟨0, 3, [97, 99, 103, 116, 97]⟩, 3, 0, []⟩] := by decide +kernel
+
+/-! ### the data set -/
+
+/-- **`dataset_schedule_independent`** — the annotated OUTPUT: with atomic increments, for every data set (any number of
+samples sharing records), every kernel pair, distance and ratio, and for EVERY choice, sample by sample, of worker
+count, distribution of the rows and interleaving in both parallel phases (`sch name`, under the hypotheses of
+`graph_schedule_independent` for that sample), ALL the annotations of ALL the records — `obiclean_status`,
+`obiclean_weight`, `obiclean_mutation`, `obiclean_head`, the head / internal / singleton / sample counts — are those
+of the sequential reference `cleanDataset`; hence (`cliOutput`) so is what `obiclean` writes with or without `--head`. -/
+theorem dataset_schedule_independent (K : Kernels) (cfg : Config) (db : List Rec) (sch : Nat → Sched × Sched)
+    (h1 : ∀ name ∈ sampleNames db,
+      (sch name).1.assign.flatten.Perm (List.range (sortByCount (sampleOf db name)).toArray.size))
+    (h2 : ∀ name ∈ sampleNames db, (sch name).2.assign.flatten.Perm (rows2 K cfg (sampleOf db name)))
+    (hd1 : ∀ name ∈ sampleNames db,
+      (parMachine (rowEdges1 K (sortByCount (sampleOf db name)).toArray) true (sch name).1.assign (sch name).1.picks).done = true)
+    (hd2 : ∀ name ∈ sampleNames db,
+      (parMachine (fun i => if cfg.maxError > 1 then
+          rowEdges2 K cfg.maxError (sortByCount (sampleOf db name)).toArray
+            ((edges1 K (sortByCount (sampleOf db name)).toArray).getD i []) i
+        else []) true (sch name).2.assign (sch name).2.picks).done = true) (onlyHead : Bool) :
+    cleanDatasetPar K cfg db true sch = cleanDataset K cfg db ∧
+    (cleanDatasetPar K cfg db true sch).map (cliOutput onlyHead) = (cleanDataset K cfg db).map (cliOutput onlyHead) := by
+  have : cleanDatasetPar K cfg db true sch = cleanDataset K cfg db := by
+    unfold cleanDatasetPar cleanDataset
+    rw [runSamples_congr _ (fun _ s => cleanSample K cfg s) db (fun name hn =>
+      graph_schedule_independent K cfg (sampleOf db name) (sch name).1 (sch name).2
+        (h1 name hn) (h2 name hn) (hd1 name hn) (hd2 name hn))]
+  exact ⟨this, by rw [this]⟩
+
+/-- the data-set reference never hangs (from `reweight_terminates`, sample by sample) -/
+theorem dataset_terminates (K : Kernels) (cfg : Config) (db : List Rec) : ∃ as, cleanDataset K cfg db = some as := by
+  obtain ⟨r, hr⟩ := runSamples_some (fun _ s => cleanSample K cfg s) db
+    (fun name => (reweight_terminates K cfg (sampleOf db name)).2)
+  exact ⟨annotateAll db r, by unfold cleanDataset; rw [hr]; rfl⟩
+
+/-- **`annot_counts_spec`** — `annotateOBIClean` on any per-sample results: `obiclean_status` has one entry per sample
+the record is a node of; `obiclean_headcount` / `_internalcount` / `_singletoncount` count the entries `h` / `i` / `s`;
+`obiclean_samplecount` is their sum = the number of entries; `obiclean_weight` has the same keys in the same order;
+`obiclean_head` holds exactly when some sample gives the status `h` or `s`. -/
+theorem annot_counts_spec (res : List (Nat × List Out)) (i : Nat) :
+    let a := annotateRec res i
+    a.headCount = (a.status.map (·.2)).count .head ∧
+    a.internalCount = (a.status.map (·.2)).count .internal ∧
+    a.singletonCount = (a.status.map (·.2)).count .singleton ∧
+    a.sampleCount = a.status.length ∧
+    a.weight.map (·.1) = a.status.map (·.1) ∧
+    (a.head = true ↔ ∃ s ∈ a.status, s.2 = .head ∨ s.2 = .singleton) := by
+  simp only [annotateRec, List.map_map]
+  have hc := status_count_total ((mineOf res i).map (fun m => status m.2.2.edges m.2.2.sons))
+  refine ⟨rfl, rfl, rfl, ?_, ?_, ?_⟩
+  · rw [List.length_map] at hc ⊢; exact hc
+  · rfl
+  · rw [decide_eq_true_iff]
+    constructor
+    · intro hpos
+      have : 0 < ((mineOf res i).map (fun m => status m.2.2.edges m.2.2.sons)).count .head ∨
+             0 < ((mineOf res i).map (fun m => status m.2.2.edges m.2.2.sons)).count .singleton := by omega
+      rcases this with h | h
+      · obtain ⟨m, hm, hs⟩ := List.mem_map.1 (List.count_pos_iff.1 h)
+        exact ⟨_, List.mem_map.2 ⟨m, hm, rfl⟩, .inl hs⟩
+      · obtain ⟨m, hm, hs⟩ := List.mem_map.1 (List.count_pos_iff.1 h)
+        exact ⟨_, List.mem_map.2 ⟨m, hm, rfl⟩, .inr hs⟩
+    · rintro ⟨s, hs, hst⟩
+      obtain ⟨m, hm, rfl⟩ := List.mem_map.1 hs
+      rcases hst with h | h
+      · have : 0 < ((mineOf res i).map (fun m => status m.2.2.edges m.2.2.sons)).count .head :=
+          List.count_pos_iff.2 (List.mem_map.2 ⟨m, hm, h⟩)
+        omega
+      · have : 0 < ((mineOf res i).map (fun m => status m.2.2.edges m.2.2.sons)).count .singleton :=
+          List.count_pos_iff.2 (List.mem_map.2 ⟨m, hm, h⟩)
+        omega
+
+/-- **`cli_head_spec`** — the final selection of the command: without `--head` every record is written, with `--head`
+exactly the records whose `obiclean_head` is true (`annot_counts_spec`: head or singleton in at least one sample);
+in both cases in input order, each once, with the annotations computed above. -/
+theorem cli_head_spec (onlyHead : Bool) (as : List Annot) :
+    (∀ i a, (i, a) ∈ cliOutput onlyHead as ↔ as[i]? = some a ∧ (onlyHead = true → a.head = true)) ∧
+    ((cliOutput onlyHead as).map (·.1)).Pairwise (· < ·) :=
+  ⟨mem_cliOutput onlyHead as, cliOutput_sorted onlyHead as⟩
+
+/-- what `obiclean_mutation[id of the father]` holds for a (son, father) pair of sequences -/
+def mutFor (K : Kernels) (son father : Seq) : String :=
+  if (K.d1 son father).verdict > 0 then
+    mutationOf ⟨0, 1, (K.d1 son father).pos, (K.d1 son father).a2, (K.d1 son father).a1⟩
+  else "(-)->(-)@0"
+
+/-- **`mutation_value_function_of_pair`** — every entry `father ↦ value` of the `obiclean_mutation` map of record `i`, whatever
+the sample and the edge it comes from, has `value = mutFor (sequence of i) (sequence of the father)`: the mutation of
+the one-difference kernel on the two sequences, or `(-)->(-)@0` for a `--distance > 1` edge. Consequently two samples
+(or two edges) can only write the SAME value under the same key: the annotation does not depend on the order in which
+Go iterates over its map of samples. Any kernels, distance, ratio, data set. -/
+theorem mutation_value_function_of_pair (K : Kernels) (cfg : Config) (db : List Rec) (res : List (Nat × List Out))
+    (h : runSamples (fun _ s => cleanSample K cfg s) db = some res) (i : Nat) (k : Nat) (v : String)
+    (hm : (k, v) ∈ (annotateRec res i).mutation) :
+    ∃ ri rk, db[i]? = some ri ∧ db[k]? = some rk ∧ v = mutFor K ri.seq rk.seq := by
+  simp only [annotateRec, List.mem_flatMap] at hm
+  obtain ⟨⟨name, outs, o⟩, hmine, hkv⟩ := hm
+  simp only [mineOf, List.mem_filterMap] at hmine
+  obtain ⟨⟨name', outs'⟩, hres, hfind⟩ := hmine
+  cases hf : outs'.find? (fun o => o.node.orig == i) with
+  | none => simp [hf] at hfind
+  | some o' =>
+    simp only [hf, Option.map_some, Option.some.injEq, Prod.mk.injEq] at hfind
+    obtain ⟨rfl, rfl, rfl⟩ := hfind
+    have horig : o'.node.orig = i := by simpa using List.find?_some hf
+    have hmem : o' ∈ outs' := List.mem_of_find?_eq_some hf
+    obtain ⟨idx, hidx⟩ := List.getElem?_of_mem hmem
+    have hcs := runSamples_mem _ db res h name' outs' hres
+    obtain ⟨hlt, hnode, hedges⟩ := output_edges_exact K cfg (sampleOf db name') outs' hcs idx o' hidx
+    simp only [mutations, List.mem_map] at hkv
+    obtain ⟨e, he, hke⟩ := hkv
+    simp only [Prod.mk.injEq] at hke
+    obtain ⟨hk, hv⟩ := hke
+    have hperm := sortByCount_perm (sampleOf db name')
+    have hin : ∀ (j : Nat) (hj : j < (sortByCount (sampleOf db name')).toArray.size),
+        (sortByCount (sampleOf db name')).toArray[j] ∈ sampleOf db name' := by
+      intro j hj
+      apply hperm.mem_iff.1
+      have : (sortByCount (sampleOf db name')).toArray[j] = (sortByCount (sampleOf db name'))[j]'(by simpa using hj) := by simp
+      rw [this]; exact List.getElem_mem _
+    obtain ⟨ri, hri, hsonseq⟩ := sampleOf_mem db name' _ (hin idx hlt)
+    rw [← hnode, horig] at hri
+    have hb := ((hedges e).1 he).1
+    have hfl : e.father < (sortByCount (sampleOf db name')).toArray.size := by
+      rcases hb with h1 | ⟨_, _, h2⟩
+      · exact (rowEdges1_father_lt _ _ _ _ h1).2
+      · exact (rowEdges2_father_lt _ _ _ _ _ h2).2
+    have hlen := (finish_edges_weight cfg (sortByCount (sampleOf db name')).toArray _ _ _ _
+      (by simp [edges1]) (by simp [edges2]) outs' hcs).1
+    have hfo : outs'[e.father]? = some (outs'[e.father]'(by omega)) := List.getElem?_eq_getElem (by omega)
+    obtain ⟨_, hfnode, _⟩ := output_edges_exact K cfg (sampleOf db name') outs' hcs e.father _ hfo
+    obtain ⟨rk, hrk, hfaseq⟩ := sampleOf_mem db name' _ (hin e.father hfl)
+    have hgetD : (outs'.getD e.father o') = outs'[e.father]'(by omega) := by
+      rw [List.getD_eq_getElem?_getD, hfo]; rfl
+    rw [hgetD, hfnode] at hk
+    rw [hk] at hrk
+    refine ⟨ri, rk, hri, hrk, ?_⟩
+    rw [← hv, ← hsonseq, ← hfaseq]
+    rcases hb with h1 | ⟨_, _, h2⟩
+    · obtain ⟨j, hij, hj, hej⟩ := (mem_rowEdges1 _ _ _ _).1 h1
+      have hfj := edgeTo1_father _ _ _ _ _ hej
+      subst hfj
+      rw [edgeTo1_eq _ _ _ _ hlt hj] at hej
+      split at hej
+      · rename_i hc
+        unfold mutFor
+        rw [if_pos hc.2]
+        injection hej with hej
+        exact (congrArg mutationOf hej).symm
+      · cases hej
+    · obtain ⟨j, hij, hj, hej⟩ := (mem_rowEdges2 _ _ _ _ _).1 h2
+      have hfj := edgeTo2_father _ _ _ _ _ _ hej
+      subst hfj
+      rw [edgeTo2_eq _ _ _ _ _ hlt hj] at hej
+      split at hej
+      · rename_i hc
+        unfold mutFor
+        rw [if_neg (by omega)]
+        split at hej
+        · split at hej
+          · injection hej with hej
+            exact (congrArg mutationOf hej).symm.trans (by simp only [mutationOf]; decide)
+          · cases hej
+        · cases hej
+      · cases hej
+
+/-- non-vacuity of `mutation_value_function_of_pair` (test on one value) -/
+example : mutFor realKernels [97, 99, 103, 97] [97, 99, 103, 116] = "(t)->(a)@4" ∧
+    mutFor realKernels [97, 99, 99, 99] [97, 103, 103, 116] = "(-)->(-)@0" := by decide
+
+/-- non-vacuity (test on one data set): three records over two samples; record 2 is internal in its only sample and is
+dropped by `--head`; the hypotheses of `dataset_schedule_independent` are about `sampleNames = [97, 98]` -/
+example :
+    let db : List Rec := [⟨[97, 99, 103, 116], [(97, 5), (98, 1)]⟩, ⟨[97, 99, 103, 97], [(97, 1), (98, 5)]⟩,
+      ⟨[97, 99, 99, 97], [(98, 2)]⟩]
+    sampleNames db = [97, 98] ∧
+    ((cleanDataset realKernels exCfg db).map (cliOutput true)).map (fun l => l.map (·.1)) = some [0, 1] ∧
+    ((cleanDataset realKernels exCfg db).map (cliOutput false)).map (fun l => l.map (fun r => (r.1, r.2.head, r.2.sampleCount)))
+      = some [(0, true, 2), (1, true, 2), (2, false, 1)] := by decide
 
 end ObiVerif.Props.C13
